@@ -538,7 +538,65 @@ def generate(ch, P):
         return generate_ladder(ch, P)
     if P.get("loop_ladder") and ch.chance(1, P["loop_ladder"], "loop_ladder"):
         return generate_loop_ladder(ch, P)
+    if P.get("reentrant") and ch.chance(1, P["reentrant"], "reentrant"):
+        return generate_reentrant(ch, P)
     return Gen(ch, P).program()
+
+
+def generate_reentrant(ch, P):
+    """Dense family for RE-ENTRANT fill rendering (F16, seeded change C03d-2): a slot whose default content contains the
+    same slot again (or a sibling slot), filled with content that renders that default through its `default=` alias from
+    inside {% with %} / {% for %} blocks which re-bind page variables. The fill is then rendered again while it is still
+    rendering; the inner rendering must see what the fill sees at its own position, not the outer rendering's bindings."""
+    mode = ["django", "isolated"][ch.draw(2, "mode")]
+    n_tok = [0]
+
+    def tok():
+        n_tok[0] += 1
+        return f"t{n_tok[0]}"
+
+    form = ch.draw(3, "re_form")
+    inner_name = "a" if form == 0 else "b"
+    inner = ["slot", inner_name, False, False, [], [["text", tok()]]]
+    outer_body = [["text", tok()], inner] + ([["text", tok()]] if ch.chance(1, 2, "re_tail") else [])
+    tmpl = [["text", tok()], ["slot", "a", False, False, [], outer_body]]
+    if form == 2:
+        tmpl.append(["slot", "b", False, False, [], [["text", tok()]]])
+    if ch.chance(1, 3, "re_loop_in_comp"):
+        tmpl = [["for", "y0", "c0_l", tmpl]]
+    comps = [_cd("c0", "L0", tmpl, slots=[["a", False, False, []]] + ([["b", False, False, []]] if form else []))]
+
+    def body(alias, k):
+        out = []
+        for j in range(1 + ch.draw(3, "re_pieces")):
+            kind = ch.weighted([2, 2, 3, 3, 2], "re_piece")
+            if kind == 0:
+                out.append(["text", tok()])
+            elif kind == 1:
+                out.append(["var", ["pa", "pb"][ch.draw(2, "re_var")]])
+            elif kind == 2:
+                nm = ["pa", "pb", f"w{k}{j}"][ch.draw(3, "re_with_name")]
+                out.append(["with", nm, ["lit", tok().upper()], [["alias_default", alias], ["var", nm]]])
+            elif kind == 3:
+                nm = ["pa", "pb", f"x{k}{j}"][ch.draw(3, "re_for_name")]
+                out.append(["for", nm, "pl", [["alias_default", alias], ["var", nm], ["forloop", 0, "counter"]]])
+            else:
+                out.append(["alias_default", alias])
+        out.append(["var", "pa"])
+        out.append(["var", "pb"])
+        return out
+
+    fills = [["fill", ["lit", "a"], None, "d", body("d", 0)]]
+    if form and ch.chance(2, 3, "re_fill_b"):
+        fills.append(["fill", ["lit", "b"], None, "e", body("e", 1)])
+    only = ch.chance(1, 3, "re_only")
+    call = [["comp", "c0", [], only, "fills", fills, False]]
+    if ch.chance(1, 3, "re_page_loop"):
+        call = [["for", "x9", "pl", call + [["var", "x9"]]]]
+    page = [["text", tok()]] + call + [["var", "pa"]]
+    ctx = {"pa": "PA", "pb": "PB", "pl": ["e0", "e1"], "pn": ["a"], "pt": True, "pf": False}
+    return {"mode": mode, "comps": comps, "page": page, "ctx": ctx, "py_entry": False, "page_wrap": 0,
+            "features": ["reentrant"]}
 
 
 def generate_loop_ladder(ch, P):
